@@ -14,6 +14,8 @@ var concPrograms = []string{
 	"(1 + ", "func f(a){a*2}; f(21)", "&c = d6; c + c", "`a{1+1}b`", "[1,2,3,4,5].shuffle()", "toStr(1.5) + repr('x')",
 	"if 1 { 2 } else { 3 }", "1 +* 2", "[4,5,6].len() * [7].len()", "y = {'k': [1,2]}; y.k.push(3); y.k.sum()",
 	"", " ", "#", "\n(", "1 +\n", "'abc", "d + 0", "3d + d", "func r(){ d }; r() + d", "600a10 + 1", "5a6k4 + d6",
+	// computed values without attributes whose bodies assign / read a name nobody defined: each VM's own business
+	"&ca = (hp9 = 50) + 1; ca", "&cb = (hp9 ?? 10) + 1; cb", "&cc = (mp9 ?? 3) * 2; cc + cc",
 	"&cv = 2d4; cv.compute() + 1", "[9,8,7].kl(2)", "'abc'[1] + 'x'", "3 +", "i = 0; while i < 5 { i = i + 1 }; i", "[1,2,3].rand() > 0",
 }
 
